@@ -277,6 +277,8 @@ pub fn run(run: &Run) {
         }
     }
     for (_, _, _, fail) in &pending { run.count(&format!("not-minimised(budget):{}|{}", fail.oracle, fail.class)); }
+    // thorough: the same quick workload once more under the AddressSanitizer build (memory errors in the library or its dependencies)
+    if !run.quick() { crate::lanes::asan_rerun(run); }
 }
 
 /// tape-level shrinking (cheap, removes most of the document), then structure-level minimisation; the signature is built
